@@ -416,6 +416,14 @@ inline void run_case(const char *name, uint64_t i, const case_fn &fn)
     }
     s.in_case = false;
     watchdog_disarm();
+    // one executed case per phase is always written out as a sample: the
+    // recorder's description of the last library call of this case
+    if (s.phase_cases[name] == 0 && cur().base) {
+        const char *nl = strchr(cur().base, '\n');
+        std::string last = nl ? std::string(nl + 1) : std::string();
+        while (!last.empty() && last.back() == '\n') last.pop_back();
+        if (!last.empty()) sample(std::string("first-case-of-phase:") + name, last, 1);
+    }
     ++s.phase_cases[name];
 }
 
